@@ -107,3 +107,12 @@ void nv_quasi_update(struct nv_solver* self, const struct nv_opaque* prev, const
 #define NV_CONTRACT_quasi_update_bfgs NV_UPDATE_FRAME
 #define NV_CONTRACT_quasi_update_hoshino NV_UPDATE_FRAME
 #define NV_CONTRACT_quasi_update_fletcher NV_UPDATE_FRAME
+
+/* non line-search bodies: function.vgrad(x, g) const evaluates the caller's own function object (mutable counters) */
+static double nv_fn_vgrad(struct nv_function* f) { f->m_fcalls = nv_nondet_int64_t(); f->m_gcalls = nv_nondet_int64_t(); return nv_nondet_double(); }
+#define nv_fn_vgrad2(f, x, g) ((void)(x), (void)(g), nv_fn_vgrad(f))
+#define NV_FN_LOOP_ASSIGNS __CPROVER_object_whole(function), nv_thrown
+#define NV_CONTRACT_sgm_do_minimize NV_MINIMIZE_FRAME(function)
+#define NV_LOOP_sgm_do_minimize_1 __CPROVER_assigns(state, x, g, iteration, NV_FN_LOOP_ASSIGNS) __CPROVER_loop_invariant(1)
+#define NV_CONTRACT_cocob_do_minimize NV_MINIMIZE_FRAME(function)
+#define NV_LOOP_cocob_do_minimize_1 __CPROVER_assigns(state, x, gx, L, G, theta, reward, NV_FN_LOOP_ASSIGNS) __CPROVER_loop_invariant(1)
